@@ -55,7 +55,7 @@ def check_property(pid, prog, meta, tier, cache, extra_progs=(), t0=None, thorou
         if sel:
             res = [r for r in res if sel(r)]
         decided = [r for r in res if r["verdict"] in ("ok", "violation")]
-        per_rule[rid] = {"instances": len(res), "decided": len(decided),
+        per_rule[rid if rid not in per_rule else "%s#%d" % (rid, len(per_rule))] = {"instances": len(res), "decided": len(decided),
                          "ok": sum(1 for r in res if r["verdict"] == "ok"),
                          "violation": sum(1 for r in res if r["verdict"] == "violation"),
                          "undecided": sum(1 for r in res if r["verdict"] == "undecided"),
@@ -188,12 +188,13 @@ def main():
         for pid in pids:
             te = None
             tbroken = 0
+            tp = time.time() if a.prop == "all" else t0
             if a.tier == "thorough" and not a.facts:
                 from rules import thorough
                 te, tlines, tviol, tbroken = thorough.run_for(pid, prog)
             else:
                 tlines, tviol = [], 0
-            lines, nv, per_rule = check_property(pid, prog, meta, a.tier, cache, extra, time.time() if a.prop == "all" else t0, te)
+            lines, nv, per_rule = check_property(pid, prog, meta, a.tier, cache, extra, tp, te)
             for ln in lines + tlines:
                 print(ln)
             summ = ", ".join("%s %d/%d" % (r, v["ok"], v["decided"]) for r, v in per_rule.items())
